@@ -120,7 +120,7 @@ let run_dec_stream c =
 
 let run_dec_subset c =
   let bytes = bytes_of_hex (str_field c "bytes") in
-  let (frames, e) = dec_subset_frames (nat_of_int (List.length bytes + 1)) bytes [] in
+  let (frames, e) = stream_read_all (nat_of_int (List.length bytes + 1)) bytes [] in
   let fr = List.map (fun (h, s) ->
       Printf.sprintf "{\"samples\":%s,\"rate\":%d,\"ch\":%d,\"bps\":%d}" (json_ints (List.map int_of_z s))
         (int_of_n h.h_rate) (int_of_n (assign_channels h.h_assign)) (int_of_n h.h_bps)) frames in
